@@ -15,6 +15,8 @@ def run(tier):
     cases = gen_clos.all_clos()
     for key, (p, root) in cases:
         fams.append(("clos", p, root, None))
+    for p, root in gen_clos.goto_loop_cases():
+        fams.append(("gotoloop", p, root, None))
     for p, root in gen_clos.selfref_cases():
         fams.append(("selfref", p, root, None))
     for p, root in gen_clos.env_cases(rng, 400 if thorough else 80):
